@@ -740,6 +740,43 @@ Definition fpp_M (cum : list R) (inplace_max : R) : R * R * R := (last cum 0, nt
 Definition fpp_p_initial (pressure_initial : R) (pf : list R) (pressure_imax : R) : R * R * R :=
   (pressure_initial, fold_right Rmax (hd 0 pf) pf, pressure_imax).
 """)
+    # ---- plot_production_comparison: data path matched statement for statement (legend / axis styling is free)
+    cmpf = m.funcs["plot_production_comparison"]
+    if [a.arg for a in cmpf.args.args] != ["prod_data", "pvt_table", "params", "filter_window_size", "filter_zero_prod_days", "well_name"] \
+            or [ast.unparse(d) for d in cmpf.args.defaults] != ["None", "True", "'Well Name'"]:
+        raise P.Untranslatable("plot_production_comparison: unexpected parameters / defaults")
+
+    def styling(n):
+        src = ast.unparse(n)
+        return isinstance(n, ast.Expr) and (src.startswith(("ax1.set(", "ax2.set(", "ax1.legend(", "ax2.legend(", "fig.set_size_inches(", "fig.tight_layout(", "fig.suptitle(")))
+    cbody = stmts(cmpf)
+    if not cbody or ast.unparse(cbody[-1]) != "return (fig, (ax1, ax2))":
+        raise P.Untranslatable("plot_production_comparison: does not end with `return fig, (ax1, ax2)`")
+    expect([n for n in cbody[:-1] if not styling(n)],
+           ["if filter_zero_prod_days:\n    prod_data = prod_data[(prod_data['Gas'] > 0) & pd.notna(prod_data['Pressure'])][['Days', 'Gas', 'Pressure']]\n"
+            "    time = np.arange(len(prod_data['Days']))\nelse:\n    prod_data = prod_data[['Days', 'Gas', 'Pressure']]\n    time = np.array(prod_data['Days'])",
+            "pressure_fracface = np.array(prod_data['Pressure'])",
+            "if filter_window_size is not None:\n    pressure_fracface = sp.ndimage.uniform_filter1d(pressure_fracface, size=filter_window_size)",
+            "cumulative_prod = np.cumsum(np.array(prod_data['Gas']))", "resource_in_place = params['M'].value", "tau = params['tau'].value",
+            "pressure_initial = params['p_initial'].value", "flow_propertiesM = FlowProperties(pvt_table, pressure_initial)",
+            "res_realgasM = SinglePhaseReservoir(80, pressure_fracface, pressure_initial, flow_propertiesM)",
+            "res_realgasM.simulate(time / tau, pressure_fracface=pressure_fracface)", "rf2M = res_realgasM.recovery_factor()",
+            "fig, (ax1, ax2) = plt.subplots(2, 1)",
+            "ax1.plot(time / tau, rf2M, '--', label=f'Production; tau={tau:7.5g}, M={resource_in_place:7.5g}')",
+            "ax1.plot(time / tau, cumulative_prod / resource_in_place, label=well_name)",
+            "ax2.plot(time / tau, pressure_fracface, label='Pressure (psi)')"], "plot_production_comparison (data path)")
+    m.out.append("""(* plot_production_comparison: same row filter (fpp_keep_row) and cumulative sum (fpp_cumulative) as the fit *)
+(* time = np.arange(len(rows)) when rows are filtered, the Days column (by position) otherwise *)
+Definition cmp_time (filter_rows : bool) (days : list R) : list R := if filter_rows then fpp_time (length days) else days.
+Definition cmp_nodes : nat := 80.
+(* res.simulate(time / tau, pressure_fracface=pressure_fracface): scaled time and schedule handed to the simulator *)
+Definition cmp_simulated_time (time : list R) (tau : R) : list R := map (fun d => d / tau) time.
+(* ax1.plot(time / tau, rf2M, ..); ax1.plot(time / tau, cumulative_prod / M, ..); ax2.plot(time / tau, pressure_fracface, ..) *)
+Definition cmp_lines (time gas pf rf : list R) (M tau : R) : list (list R * list R) :=
+  [ (map (fun d => d / tau) time, rf);
+    (map (fun d => d / tau) time, map (fun c => c / M) (fpp_cumulative gas));
+    (map (fun d => d / tau) time, pf) ].
+""")
     return m
 
 
